@@ -138,6 +138,25 @@ def signature(clause, row):
     return "%s:%s:r%s:%s%+d" % (clause, row["ph"], "max" if row["r"] == -1 else row["r"], row["jph"], row["jr"])
 
 
+def partial_entry_point(ck, binary, thorough):
+    """History independence on the partial entry point (PartiallyValidateMessage -> FullyValidateMessage share the validation cache with
+    ValidateMessage): the points of the two-stage table of C13 are run on fresh and on long-lived participants; TLC evaluates
+    C05_HistoryIndependent on every recorded row (spec/msg/PartialValidationTable.tla)."""
+    import C13
+    dz = {}
+    C13.design(ck, dz)
+    inp, outp = os.path.join(ck.dir, "c05p-in.ndjson"), os.path.join(ck.dir, "c05p-out.ndjson")
+    n, nf = C13.compose(ck, dz["rows"], inp, 120000 if thorough else 16000)
+    rc, out = vlib.run_driver(binary, "TestC13Table", env=dict(VERIF_IN=inp, VERIF_OUT=outp, VERIF_SEED=str(ck.seed)), timeout=1500)
+    if rc != 0:
+        raise Inconclusive("driver failed (partial entry point):\n" + out[-3000:])
+    recs = vlib.read_ndjson(outp)
+    if len(recs) != n or not any(r["ts"] == [True] for r in recs) or min(r["nts"] for r in recs) < 4:
+        raise Inconclusive("vacuous run of the partial entry point: %d of %d rows" % (len(recs), n))
+    mc.check_table(ck, "PartialValidationTable", "PartialValidationTable.cfg", outp, "c05partial", signature, chunk=16000, par=6 if thorough else 4)
+    ck.cov["partial_entry_point_rows"] = n
+
+
 def run(ck):
     thorough = ck.tier == "thorough"
     box, dz = {}, {}
@@ -187,6 +206,8 @@ def run(ck):
                    par=6 if thorough else 5)
     if thorough:
         race_part(ck, inp)
+    if not ck.violations:
+        partial_entry_point(ck, box["bin"], thorough)
     evals = sum(1 + r["nw"] + r["nc"] for r in recs)
     ck.cov["evaluations"] = evals
     ck.cov["distinct_nontrivial"] = len(recs)
